@@ -526,6 +526,10 @@ func reifyMergeValue(
 		if err != nil {
 			return reflect.Value{}, err
 		}
+		if oldValue.Kind() == reflect.Interface {
+			// the field keeps the (pointer to the) unpacker it holds
+			return oldValue, nil
+		}
 		return old, nil
 	}
 
